@@ -24,6 +24,8 @@ def _(c):
     c.requires('wf_sim(sim) and wf_queue(q) and q.num_reactions == sim.num_reactions')
     c.requires('len(timepoints) >= 1')
     c.requires('sim.dt > 0 and timepoints[0] >= sim.initial_time and q.next_queue_time >= sim.initial_time and q.dt > 0')
+    # the caller hands over a queue whose clock is the simulation clock (setup_queue starts it at time 0, as the interface does): see the invariant below
+    c.requires('q.next_queue_time <= sim.initial_time + q.dt', label='queue-clock-starts-at-the-initial-time')
     c.assume('forall(lambda k: U(k) > 0)', 'uniform_rv() == 0 excluded')
     main = c.loop(0)
     main.also_modifies('kappa', 'ghost:pvals', 'c_current_state', 'c_propensity', 'c_results', 'c_volume_trace', 'c_delay_rxns',
@@ -38,6 +40,8 @@ def _(c):
     main.invariant('delta_t == sim.dt and current_time <= next_vol_time and next_vol_time <= current_time + delta_t', label='delta-clock-aligned-with-the-current-time')
     main.invariant('current_index == num_timepoints or c_timepoints[current_index] >= current_time', label='next-row-is-not-in-the-past')
     main.invariant('current_time <= q.next_queue_time', label='delay-queue-clock-is-not-in-the-past')
+    # "at the firing time plus a delay, to the resolution of the time grid" (C10): the next delivery is never more than one slot ahead either
+    main.invariant('q.next_queue_time <= current_time + q.dt', label='delay-queue-clock-is-the-simulation-clock')
     main.step('forall(lambda r: implies(0 <= r and r < num_reactions, c_propensity[r] == '
               'ufun("svprop", sim, r, %s, ghost("pvals"), head(current_volume), head(current_time))))' % XR, label='volume-scaled-propensities')
     main.step('Lambda == sum_(c_propensity, num_reactions)', label='total-propensity')
